@@ -1,5 +1,6 @@
 import Ezc3dVerif.Model.Api
 import Ezc3dVerif.Spec.Format
+import Ezc3dVerif.Spec.Assemble
 /-
   Line protocol shared with the C++ harness: hex helpers, parsers, canonical dump.
   Not part of the proved model; it is the glue whose faithfulness the correspondence check tests.
@@ -143,6 +144,11 @@ def specLines (c : Spec.Content) (full : Bool) : List String :=
   ++ c.groups.map (fun g => s!"SG {g.gid} {xhex g.name} {b01 g.locked} {xhex g.desc}")
   ++ c.params.map (fun p => let (t, v) := pdataStr p.data
         s!"SQ {p.gid} {xhex p.name} {b01 p.locked} {t} {natList p.dims} {v} {xhex p.desc}")
+  -- the group table as `Spec.assemble` presents it (Properties/C02c.lean: the loader's table IS this presentation)
+  ++ ((enum (Spec.assemble c.groups c.params)).foldr (fun (i, a) acc =>
+        (s!"AG {i} {xhex a.name} {b01 a.locked} {xhex a.desc} {a.params.length}" ::
+          a.params.map (fun p => let (t, v) := pdataStr p.data
+            s!"AQ {i} {xhex p.name} {b01 p.locked} {t} {natList p.dims} {v} {xhex p.desc}")) ++ acc) [])
   ++ [s!"SN {c.frames.length} {c.dataBytesLeft}"]
   ++ (if full then (enum c.frames).foldr (fun (i, f) acc =>
         (s!"FR {i} {f.points.length} {f.analogs.length}" ::
